@@ -20,6 +20,16 @@ def gen_scenario(rng):
     pres = rng.choice([0, 1])
     cprog = rng.choice(["c", "cs", "cs", "csu"])
     jl = 1 if ss and rng.random() < 0.4 else 0
+    if rng.random() < 0.15:
+        # map subscription loaded with two commands; an unsubscribe (or a close) arrives between the pages
+        other = rng.choice(["U", "U", "U", "X", "V"])
+        pre = ["s:C", "r:cing", "r:conn", "a:page", f"s:{other}"]
+        if other in ("U", "V") and rng.random() < 0.85:
+            pre.append("b:unsubwait")
+        tail = ["r:page", "r:unsub", "r:unsub", "r:disc"]
+        if rng.random() < 0.3:
+            tail = ["s:T", "r:alive"] + tail
+        return [f"reset ss=0 pres={pres} cprog=cm jl=0 map=1", "sched " + " ".join(pre + tail)]
     chains = [["s:C", "r:cing"] + (["r:join"] if jl else []) + ["r:conn"] + (["r:unsub"] if cprog == "csu" else [])]
     others = []
     if rng.random() < 0.6:
@@ -123,7 +133,7 @@ def oracle_sched(reset, sched, out):
     est = [x for x in kv.get("est", "-").split(",") if x and x != "-"]
     cleanup = first("cleanup")
     enders_all = ["start:X", "start:E", "start:S"]
-    for sub in ("c1", "s1"):
+    for sub in ("c1", "s1", "m1"):
         n = len(pos.get(f"unsub:{sub}+", []))
         if n > 1:
             return f"unsubscribe callback ran {n} times for {sub}", {"kind": "unsub-twice", "sub": sub}
@@ -132,6 +142,8 @@ def oracle_sched(reset, sched, out):
                 return f"unsubscribe callback for {sub} which was never established", {"kind": "unsub-unestablished", "sub": sub}
             continue
         enders = enders_all + (["start:U", "start:V"] if (sub == "s1" or "ss=0" in reset) else [])
+        if "map=1" in reset:
+            enders = enders_all + (["start:U", "start:V"] if sub == "m1" else [])
         starts = [first(x) for x in enders if first(x) is not None]
         if cplus is not None and all(cplus < s for s in starts) and n != 1:
             return f"established subscription {sub} ended but its unsubscribe callback ran {n} times", \
@@ -242,7 +254,7 @@ def run(ctx):
     # the proven predicate (Lifecycle.scan … .ok, theorem `callbacks`) evaluated by the Lean driver on the
     # implementation's callback logs: must hold on every real trace and agree with the Python oracle
     smap = {"connect+": "connect+", "connect-": "connect-", "alive+": "alive+", "alive-": "alive-",
-            "disconnect+": "disconnect+", "disconnect-": "disconnect-", "unsub:s1+": "unsub:0", "unsub:c1+": "unsub:1"}
+            "disconnect+": "disconnect+", "disconnect-": "disconnect-", "unsub:s1+": "unsub:0", "unsub:c1+": "unsub:1", "unsub:m1+": "unsub:2"}
     sops, sctx = [], []
     for op, out in zip(ops, impl):
         if op.startswith("sched") and out not in ("HARNESS-TIMEOUT", "<missing>"):
